@@ -36,6 +36,7 @@ type gtCert struct {
 	keyUsage   gx509.KeyUsage
 	permitted  []string
 	eku        []gx509.ExtKeyUsage
+	ekuUnknown bool // the EKU extension also lists an OID no library knows (alone: a usage nobody can request by name)
 	dns        []string
 	ips        []net.IP
 	cn         string
@@ -165,9 +166,10 @@ func refConstraintOK(g *gtCert, host string, k knobs) bool {
 	return false
 }
 
-func ekuAllows(set []gx509.ExtKeyUsage, requested []gx509.ExtKeyUsage, all bool) bool {
-	if len(set) == 0 {
-		return true
+func ekuAllows(g *gtCert, requested []gx509.ExtKeyUsage, all bool) bool {
+	set := g.eku
+	if len(set) == 0 && !g.ekuUnknown {
+		return true // no EKU extension
 	}
 	has := func(u gx509.ExtKeyUsage) bool {
 		for _, s := range set {
@@ -220,7 +222,7 @@ func refChainOK(chain []*gtCert, at time.Time, host string, usages []gx509.ExtKe
 		if !refConstraintOK(g, host, k) {
 			return false, "name constraint"
 		}
-		if i > 0 && k.interEKU && !ekuAllows(g.eku, req, k.allUsages) {
+		if i > 0 && k.interEKU && !ekuAllows(g, req, k.allUsages) {
 			return false, "issuer eku"
 		}
 	}
@@ -234,7 +236,7 @@ func refChainOK(chain []*gtCert, at time.Time, host string, usages []gx509.ExtKe
 	if !refLeafHostOK(l, host, k) {
 		return false, "host"
 	}
-	if !ekuAllows(l.eku, req, k.allUsages) {
+	if !ekuAllows(l, req, k.allUsages) {
 		return false, "leaf eku"
 	}
 	return true, ""
@@ -352,6 +354,9 @@ func runTopology(c *Ctx, ti int, r *mon.RNG) {
 				t.MaxPathLen = -1
 			}
 		}
+		if g.ekuUnknown {
+			t.UnknownExtKeyUsage = []asn1.ObjectIdentifier{{1, 3, 6, 1, 4, 1, 99999, 7}}
+		}
 		if g.critExt {
 			t.ExtraExtensions = []pkix.Extension{{Id: asn1.ObjectIdentifier{1, 3, 6, 1, 4, 1, 99999, 42}, Critical: true, Value: []byte{5, 0}}}
 		}
@@ -419,6 +424,8 @@ func runTopology(c *Ctx, ti int, r *mon.RNG) {
 		switch {
 		case bad(14):
 			g.eku = []gx509.ExtKeyUsage{gx509.ExtKeyUsageClientAuth}
+		case bad(20):
+			g.ekuUnknown = true // an EKU extension with only an unrecognised usage
 		case r.Intn(5) == 0:
 			g.eku = []gx509.ExtKeyUsage{gx509.ExtKeyUsageAny} // permissive issuer: must not shadow the leaf's own EKU
 		case r.Intn(8) == 0:
@@ -445,6 +452,47 @@ func runTopology(c *Ctx, ti int, r *mon.RNG) {
 	}
 	if len(ents) == 0 {
 		return
+	}
+	// every fifth topology: a CA entity that is present BOTH as a trusted root whose EKU restricts what may be verified
+	// through it AND as a cross-certificate (same name and key) in the intermediates, leading to another, unrestricted
+	// root. Whatever one thinks of EKU restrictions on issuers (unspecified), a leaf under that entity has a valid chain
+	// for every usage: through the root where the usage is allowed, through the cross-certificate where it is not.
+	dual := ti%5 == 2
+	var dualCA *gtCert
+	if dual {
+		other := mkCA("root", fmt.Sprintf("RootO%d", ti), newKey())
+		other.eku, other.ekuUnknown = nil, false
+		other.issuerName, other.signerKey = other.subject, other.keyID
+		kD := newKey()
+		r0 := mkCA("root", fmt.Sprintf("Dual%d", ti), kD)
+		r0.ekuUnknown = false
+		switch r.Intn(4) {
+		case 0:
+			r0.eku = []gx509.ExtKeyUsage{gx509.ExtKeyUsageClientAuth}
+		case 1:
+			r0.eku = []gx509.ExtKeyUsage{gx509.ExtKeyUsageServerAuth}
+		case 2:
+			r0.eku, r0.ekuUnknown = nil, true
+		default:
+			r0.eku = []gx509.ExtKeyUsage{gx509.ExtKeyUsageEmailProtection}
+		}
+		r0.issuerName, r0.signerKey = r0.subject, r0.keyID
+		x := mkCA("inter", r0.subject, kD)
+		x.eku, x.ekuUnknown = nil, false
+		if r.Intn(3) == 0 {
+			x.eku = []gx509.ExtKeyUsage{gx509.ExtKeyUsageAny}
+		}
+		x.issuerName, x.signerKey = other.subject, other.keyID
+		if issue(other, nil) && issue(r0, nil) && issue(x, other) {
+			other.inRoots, r0.inRoots, x.inInters = true, true, true
+			for _, g := range []*gtCert{other, r0, x} {
+				g.id = len(all)
+				all = append(all, g)
+			}
+			ents = append(ents, other, r0)
+			dualCA = r0
+			rep.Count("topologies_with_restricted_root_that_is_also_cross_certified", 1)
+		}
 	}
 	// intermediates: entities with possibly several certificates
 	nInter := r.Intn(5)
@@ -489,6 +537,9 @@ func runTopology(c *Ctx, ti int, r *mon.RNG) {
 	var leaves []*gtCert
 	for i := 0; i < nLeaves; i++ {
 		par := ents[r.Intn(len(ents))]
+		if dualCA != nil && r.Intn(2) == 0 {
+			par = dualCA
+		}
 		g := &gtCert{id: len(all), role: "leaf", subject: fmt.Sprintf("Leaf%d-%d", ti, i), keyID: newKey(), pathLen: -1}
 		g.cn = fmt.Sprintf("leaf%d.example.com", i)
 		g.notBefore, g.notAfter = randValidity()
@@ -511,7 +562,11 @@ func runTopology(c *Ctx, ti int, r *mon.RNG) {
 		switch r.Intn(5) {
 		case 0:
 			if bad(1) {
-				g.eku = []gx509.ExtKeyUsage{gx509.ExtKeyUsageClientAuth}
+				if r.Intn(3) == 0 {
+					g.ekuUnknown = true // EKU present, only an unrecognised usage: matches no usage requested by name
+				} else {
+					g.eku = []gx509.ExtKeyUsage{gx509.ExtKeyUsageClientAuth}
+				}
 			}
 		case 1:
 			g.eku = []gx509.ExtKeyUsage{gx509.ExtKeyUsageServerAuth}
@@ -519,6 +574,9 @@ func runTopology(c *Ctx, ti int, r *mon.RNG) {
 			g.eku = []gx509.ExtKeyUsage{gx509.ExtKeyUsageAny}
 		case 3:
 			g.eku = []gx509.ExtKeyUsage{gx509.ExtKeyUsageServerAuth, gx509.ExtKeyUsageClientAuth}
+		}
+		if len(g.eku) > 0 && r.Intn(6) == 0 {
+			g.ekuUnknown = true // a known usage next to an unrecognised one: the known one still counts
 		}
 		if bad(10) {
 			g.critExt = true
@@ -649,7 +707,7 @@ func runTopology(c *Ctx, ti int, r *mon.RNG) {
 		var usages []gx509.ExtKeyUsage
 		ucls := "default"
 		usel := 4
-		if dim == 3 || r.Intn(8) == 0 {
+		if dim == 3 || r.Intn(8) == 0 || (dualCA != nil && r.Intn(2) == 0) {
 			usel = r.Intn(5)
 		}
 		switch usel {
@@ -679,7 +737,7 @@ func runTopology(c *Ctx, ti int, r *mon.RNG) {
 			for _, g := range all {
 				cs = append(cs, map[string]interface{}{"id": g.id, "role": g.role, "subject": g.subject, "key": g.keyID, "issuer": g.issuerName, "signed_by_key": g.signerKey,
 					"valid": [2]string{g.notBefore.Format(time.RFC3339), g.notAfter.Format(time.RFC3339)}, "bc": g.bcValid, "ca": g.isCA, "pathlen": g.pathLen, "ku": int(g.keyUsage),
-					"permitted": g.permitted, "eku": g.eku, "dns": g.dns, "crit": g.critExt, "roots": g.inRoots, "inters": g.inInters, "der": mon.Hex(g.cert.Raw)})
+					"permitted": g.permitted, "eku": g.eku, "eku_unknown_oid": g.ekuUnknown, "dns": g.dns, "crit": g.critExt, "roots": g.inRoots, "inters": g.inInters, "der": mon.Hex(g.cert.Raw)})
 			}
 			return map[string]interface{}{"topology": ti, "certs": cs, "leaf": leaf.id, "time": at.Format(time.RFC3339), "host": host, "usages": usages, "pool_order": idx}
 		}
